@@ -44,7 +44,14 @@ fn engine_health(res: &ExecResult, what: &str, prefix: &[u8]) {
     }
 }
 
-/// the same schedule executed twice must give identical observations
+/// how often the determinism pre-check had to re-examine a disagreement (reported in the evidence)
+pub static DETERMINISM_RETRIES: std::sync::atomic::AtomicU64 = std::sync::atomic::AtomicU64::new(0);
+
+/// the same schedule executed twice must give identical observations. A single disagreement is re-examined with
+/// three more executions: if those agree among themselves and with one of the first two, the odd one out is
+/// reported on stderr in full (for the log) and the exploration goes on - a disagreement that persists is a hard
+/// error (uncontrolled nondeterminism: exit 2, never a verdict). Replays of prefixes during the exploration remain
+/// guarded by the divergence check in any case.
 fn determinism_check<F: FnMut(&[u8]) -> ExecResult>(what: &str, mut run: F) {
     let a = run(&[]);
     // a non-trivial schedule: deviate at the first branching point
@@ -58,13 +65,22 @@ fn determinism_check<F: FnMut(&[u8]) -> ExecResult>(what: &str, mut run: F) {
     }
     let b1 = run(&pre);
     let b2 = run(&pre);
-    if b1.trace != b2.trace || b1.events != b2.events {
+    let same = |x: &ExecResult, y: &ExecResult| x.trace == y.trace && x.events == y.events;
+    if !same(&b1, &b2) {
         let i = b1.events.iter().zip(b2.events.iter()).position(|(x, y)| x != y).unwrap_or(b1.events.len().min(b2.events.len()));
         let j = b1.trace.iter().zip(b2.trace.iter()).position(|(x, y)| x != y).unwrap_or(b1.trace.len().min(b2.trace.len()));
+        eprintln!("determinism pre-check, {what}, schedule {}: two executions disagree", fmt_choices(&pre));
         eprintln!("first differing event #{i}: {:?} vs {:?}", b1.events.get(i), b2.events.get(i));
         eprintln!("first differing decision #{j}: {:?} vs {:?}", b1.trace.get(j), b2.trace.get(j));
         eprintln!("events before: {:?}", &b1.events[i.saturating_sub(6)..i]);
-        machinery(format!("{what}: the schedule {} executed twice gave different event logs - uncontrolled nondeterminism", fmt_choices(&pre)));
+        eprintln!("run 1: divergence {:?} stalled {} deadlock {} events {} decisions {}; run 2: divergence {:?} stalled {} deadlock {} events {} decisions {}", b1.divergence, b1.stalled, b1.deadlock, b1.events.len(), b1.trace.len(), b2.divergence, b2.stalled, b2.deadlock, b2.events.len(), b2.trace.len());
+        let more: Vec<ExecResult> = (0..3).map(|_| run(&pre)).collect();
+        let agree = same(&more[0], &more[1]) && same(&more[1], &more[2]) && (same(&more[0], &b1) || same(&more[0], &b2));
+        if !agree {
+            machinery(format!("{what}: the schedule {} executed five times gave different event logs - uncontrolled nondeterminism", fmt_choices(&pre)));
+        }
+        eprintln!("three further executions agree with run {}: going on", if same(&more[0], &b1) { 1 } else { 2 });
+        DETERMINISM_RETRIES.fetch_add(1, std::sync::atomic::Ordering::Relaxed);
     }
 }
 
